@@ -368,6 +368,15 @@ def run_values(ctx, db, ents, rawcon, cs):
                     if not all(equal_for_property(seen, o) or (isinstance(seen, Decimal) and isinstance(o, Decimal) and seen == o) for o in others):
                         ctx.violation('a query parameter matches rows holding a different value', inp, observed=[repr(o)[:60] for o in others], expected=repr(seen)[:100],
                                       key='param-overmatch:%s:%s' % (c.name, repr(v)[:60]))
+            # ---- column affinity (Model/Store.lean affinityOf / looksNumeric): the TEXT Pony binds stays TEXT or is converted by SQLite
+            try:
+                conv = E.v.converters[0]
+                bound = conv.py2sql(conv.val2dbval(seen)) if seen is not None else None
+            except Exception:
+                bound = None
+            if isinstance(bound, str) and all(ord(ch) < 0xd800 or ord(ch) > 0xdfff for ch in bound):
+                reqs.append({'op': 'affinity', 'decl': conv.get_sql_type(), 's': [ord(ch) for ch in bound]})
+                metas.append(('affinity', dict(inp, bound=bound[:80], column=conv.get_sql_type()), r))
             # ---- the model
             if c.model is None: continue
             mv = model_value(c, seen)
@@ -389,6 +398,14 @@ def compare_model(ctx, reqs, metas):
         ctx.note('driver unavailable: model correspondence skipped'); return
     outs = ctx.driver('C07', reqs)
     for req, (c, inp, r), out in zip(reqs, metas, outs):
+        if c == 'affinity':
+            ctx.case(['affinity', inp['column'], inp['bound']], kind='model-tie:affinity')
+            if 'driver_error' in out: ctx.divergence('driver error', inp, model=out); continue
+            real_text = r['raw'][0] == 'text'
+            ctx.count('affinity:%s:%s' % (out['aff'], 'stays-text' if real_text else 'converted-to-' + r['raw'][0]))
+            if out['stays_text'] != real_text:
+                ctx.divergence('storage class of a bound TEXT differs from the affinity model', inp, model=out, impl=r['raw'][0])
+            continue
         ctx.case([c.name, inp['value'], 'model'], kind='model-tie:' + c.model)
         if 'driver_error' in out:
             ctx.divergence('driver error', inp, model=out); continue
